@@ -51,6 +51,7 @@ class Interp:
     self.calls = []                 # record of opaque calls (name, batch, ins, outs)
     self.hints = hints or {}
     self.stats = {'eqns': 0, 'sym_eqns': 0}
+    self.concrete_nans = []
     self.on_call = on_call
     self.prims = set()
     self.side_notes = []            # side conditions introduced by contract cuts, to be discharged by the caller
@@ -171,7 +172,16 @@ class Interp:
     if not anysym:
       o = eqn.primitive.bind(*[x if (hasattr(x, 'dtype') and cj.is_key_dtype(x.dtype)) else jnp.asarray(x) for x in ins], **P)
       o = o if eqn.primitive.multiple_results else [o]
-      return [x if cj.is_key_dtype(x.dtype) else np.asarray(x) for x in o]
+      res = [x if cj.is_key_dtype(x.dtype) else np.asarray(x) for x in o]
+      # a NaN computed by a concrete equation from NaN-free operands (0/0, inf-inf, atan2-derivative at the origin ...): remembered, so that definedness
+      # contracts (C03) can report it; other obligations are unaffected (a NaN that reaches a symbolic operation still makes them undecided)
+      try:
+        if any(r.dtype.kind == 'f' and np.isnan(r).any() for r in res if hasattr(r, 'dtype') and not cj.is_key_dtype(r.dtype)) and \
+           not any(np.asarray(x).dtype.kind == 'f' and np.isnan(np.asarray(x)).any() for x in ins if not (hasattr(x, 'dtype') and cj.is_key_dtype(x.dtype))):
+          self.concrete_nans.append({'primitive': p, 'operands': [np.asarray(x).reshape(-1)[:6].tolist() for x in ins if not (hasattr(x, 'dtype') and cj.is_key_dtype(x.dtype))][:3]})
+      except Exception:      # noqa: BLE001
+        pass
+      return res
     self.stats['sym_eqns'] += 1
     self.prims.add(p)
     ew = self.ew
